@@ -30,6 +30,12 @@ IB = 'beta._http._tcp.local.'
 IC = 'gamma._ipp._tcp.local.'
 H1 = 'h1.local.'
 H2 = 'H2.local.'
+HW = 'www.local.'
+TTL_CAP = 1000000          # seconds; what the trace carries for larger TTLs (TLC integers are 32 bit, the contract multiplies by 1000)
+
+
+def capttl(x: Any) -> int:
+    return int(min(x, TTL_CAP))
 
 # identity table: id -> (name, type, class(no flush bit), rd, alternative spellings of the owner name,
 #                         alternative spellings of the rdata target)
@@ -50,8 +56,9 @@ VOCAB: Dict[int, tuple] = {
     14: (H1, wire.T_HINFO, 1, (b'cpu', b'os'), [H1], None),
     15: (IA, wire.T_TXT, 3, b'\x03x=1', [IA], None),          # same as 7 except for the class
     16: (IC, wire.T_SRV, 1, (0, 0, 631, H2), [IC], [H2]),
+    17: (HW, wire.T_CNAME, 1, H1, [HW, 'WWW.local.'], [H1, 'H1.local.']),   # decoded into the pointer class, but not a PTR
 }
-NAMES = [T1, T2, IA, IB, IC, H1, H2]
+NAMES = [T1, T2, IA, IB, IC, H1, H2, HW]
 HOSTS = [H1, H2]
 
 
@@ -118,7 +125,7 @@ def whole(c: float) -> int:
 def triple(rec: Any) -> List[int]:
     c = rec.created
     ttl = rec.ttl
-    return [record_id(rec), int(c) if c == int(c) else -999, int(ttl) if ttl == int(ttl) else -999]
+    return [record_id(rec), int(c) if c == int(c) else -999, capttl(ttl) if ttl == int(ttl) else -999]
 
 
 def build_datagram(items: List[dict]) -> bytes:
@@ -142,7 +149,7 @@ def probe_objects() -> Dict[int, Any]:
     res = {}
     for i, (name, t, cls, rd, osp, rsp) in VOCAB.items():
         nm = osp[-1]                      # look up with an alternative spelling
-        if t == wire.T_PTR:
+        if t in (wire.T_PTR, wire.T_CNAME):
             o: Any = DNSPointer(nm, t, cls, 0, rsp[-1], 1.0)
         elif t == wire.T_SRV:
             o = DNSService(nm, t, cls, 0, rd[0], rd[1], rd[2], rsp[-1], 1.0)
@@ -180,7 +187,7 @@ class Recorder:
         did = self.did.setdefault(data, len(self.did) + 1)
         items = self.items_by_data.get(data)
         if items is not None:
-            self.ev('recv', did=did, q=False, qu=False, items=[{'id': it['id'], 'ttl': it['ttl'], 'fl': bool(it.get('fl'))}
+            self.ev('recv', did=did, q=False, qu=False, items=[{'id': it['id'], 'ttl': capttl(it['ttl']), 'fl': bool(it.get('fl'))}
                                                                for it in items])
         else:
             try:
@@ -274,10 +281,10 @@ class Recorder:
                 pairs = []
                 for ru in records:
                     o = ru.old
-                    pairs.append({'n': record_id(ru.new), 'nttl': int(ru.new.ttl), 'nc': whole(ru.new.created),
+                    pairs.append({'n': record_id(ru.new), 'nttl': capttl(ru.new.ttl), 'nc': whole(ru.new.created),
                                   'o': record_id(o) if o is not None else 0,
                                   'oc': whole(o.created) if o is not None else 0,
-                                  'ottl': int(o.ttl) if o is not None else 0})
+                                  'ottl': capttl(o.ttl) if o is not None else 0})
                 rec.ev('lcall', lid=lid, ph='upd', now=int(now), pairs=pairs, view=rec.view())
                 rec.run_script(script, self.calls, 'upd')
 
@@ -314,8 +321,8 @@ class Recorder:
             zc.async_remove_listener(l)
 
     # ------------------------------------------------------------ browsers
-    def start_browser(self, bid: int, types: List[str]) -> None:
-        from zeroconf import ServiceListener
+    def start_browser(self, bid: int, types: List[str], oneshot: bool = False) -> None:
+        from zeroconf import ServiceListener, ServiceStateChange
         from zeroconf.asyncio import AsyncServiceBrowser
         rec = self
 
@@ -338,7 +345,24 @@ class Recorder:
                 if r.type == wire.T_PTR and r.is_expired(now):
                     return      # outside the property's domain (expired-but-unpurged pointer): do not start
         self.ev('bstart', bid=bid, types=[NAME_ID[low(t)] for t in types])
-        self.browsers[bid] = AsyncServiceBrowser(self.host.zc, list(types), listener=BL(), delay=self.sc.get('delay', 10000))
+        if oneshot:
+            # the handler form of the API: a helper that takes itself off the signal at its first event, listed before the
+            # permanent handler (which is the one the contract watches)
+            bl = BL()
+            holder: Dict[str, Any] = {}
+
+            def first_only(zeroconf: Any, service_type: str, name: str, state_change: Any) -> None:
+                if 'b' in holder and not holder.get('gone'):       # (events fired from inside the constructor: not yet)
+                    holder['gone'] = True
+                    holder['b'].service_state_changed.unregister_handler(first_only)
+
+            def permanent(zeroconf: Any, service_type: str, name: str, state_change: Any) -> None:
+                bl._cb({ServiceStateChange.Added: 'add', ServiceStateChange.Removed: 'rem',
+                        ServiceStateChange.Updated: 'upd'}[state_change], service_type, name)
+            holder['b'] = self.browsers[bid] = AsyncServiceBrowser(self.host.zc, list(types), handlers=[first_only, permanent],
+                                                                   delay=self.sc.get('delay', 10000))
+        else:
+            self.browsers[bid] = AsyncServiceBrowser(self.host.zc, list(types), listener=BL(), delay=self.sc.get('delay', 10000))
         self.ev('bstart_done', bid=bid)
 
     # ------------------------------------------------------------ main
@@ -359,7 +383,7 @@ class Recorder:
             elif op in ('ladd', 'lrem'):
                 self.do_listener_action(st)
             elif op == 'bstart':
-                self.start_browser(st['bid'], st['types'])
+                self.start_browser(st['bid'], st['types'], st.get('oneshot', False))
             elif op == 'bcancel':
                 b = self.browsers.pop(st['bid'], None)
                 if b is not None:
@@ -387,6 +411,7 @@ class Recorder:
 
 # ------------------------------------------------------------------ scenario generation
 TTL_GRID = [0, 0, 1, 2, 120, 120, 1124, 1125, 4500, 4500]
+HUGE_TTLS = [2 ** 31 - 1, 2 ** 31, 2 ** 31 + 120, 2 ** 32 - 1]
 STEP_GRID = [0, 1, 500, 999, 1000, 1001, 2000, 5000, 10000, 10000, 60000, 120000, 1125000, 4500000]
 
 
@@ -426,11 +451,22 @@ def gen_scenario(rng: random.Random, sid: str, n_dgrams: int, with_dups: bool = 
         steps.append({'op': 'at', 't': t})
         if browsers and (len(live_b) < browsers) and rng.random() < 0.25:
             types = [T1] if rng.random() < 0.6 else ([T2] if rng.random() < 0.5 else [T1, T2])
-            steps.append({'op': 'bstart', 'bid': next_bid, 'types': types, 'guard': True})
+            steps.append({'op': 'bstart', 'bid': next_bid, 'types': types, 'guard': True, 'oneshot': rng.random() < 0.3})
             live_b.append(next_bid)
             next_bid += 1
         elif live_b and rng.random() < 0.04:
             steps.append({'op': 'bcancel', 'bid': live_b.pop(rng.randrange(len(live_b)))})
+        if live_b and rng.random() < 0.1:
+            # refresh probe: a pointer, and some time later one datagram that lists a new sibling before a refresh of it
+            # (same or different TTL, any spelling)
+            x, y = rng.choice([(1, 2), (2, 1)])
+            steps.append({'op': 'recv', 'items': [{'id': x, 'ttl': rng.choice([120, 1125, 4500]), 'fl': False, 'sp': 0, 'rsp': rng.randint(0, 2)}]})
+            t += rng.choice([0, 500, 9000, 11000, 20000, 60000])
+            steps.append({'op': 'at', 't': t})
+            steps.append({'op': 'recv', 'items': [{'id': y, 'ttl': rng.choice([120, 4500]), 'fl': False, 'sp': 0, 'rsp': rng.randint(0, 2)},
+                                                  {'id': x, 'ttl': rng.choice([120, 1125, 4500]), 'fl': False, 'sp': 0, 'rsp': rng.randint(0, 2)}]})
+            prev_items = None
+            continue
         if rng.random() < 0.12:
             # flush-window probe: a record, then exactly 999 / 1000 / 1001 ms later a sibling of the same
             # (name, type, class) with the cache-flush bit
@@ -452,6 +488,8 @@ def gen_scenario(rng: random.Random, sid: str, n_dgrams: int, with_dups: bool = 
                 else:
                     i = rng.choice(ids)
                 ttl = rng.choice(TTL_GRID) if rng.random() < 0.85 else rng.randint(0, 70000)
+                if rng.random() < 0.04:
+                    ttl = rng.choice(HUGE_TTLS)
                 items.append({'id': i, 'ttl': ttl, 'fl': rng.random() < 0.35, 'sp': rng.randint(0, 2),
                               'rsp': rng.randint(0, 2)})
             if with_dups and rng.random() < 0.2 and items:
